@@ -8,29 +8,36 @@ set_option linter.unusedSimpArgs false
 
 namespace Note
 
-/-- A flag is set only by note.c:89, for the note of the innermost activation. -/
+/-- A flag is set only by note.c:89, for the note of the innermost activation, or by
+    `nsync_note_new` for the note it is creating, when it finds the parent notified (note.c/7). -/
 theorem step_flag_new {s s' : State} {e : Event} (hs : step s e = .ok s') (n : NoteId)
     (hn : (s'.notes n).notified = true) :
     (s.notes n).notified = true ∨
-    ∃ a f rest top, e.actor = some a ∧ s.pc a = .chd .st (f :: rest) top ∧ f.note = n := by
+    (∃ a f rest top, e.actor = some a ∧ s.pc a = .chd .st (f :: rest) top ∧ f.note = n) ∨
+    (∃ a p dl, e.actor = some a ∧ s.pc a = .newP .st n p dl) := by
   cases e
   all_goals step_cases hs
   all_goals (try (left; exact hn))
   all_goals (try (left; simpa using hn))
   all_goals (repeat' split at hn)
   all_goals (try (left; simpa using hn))
-  · simp only [childWakeNext_f_notified, setNotified_f_notified] at hn
-    split at hn
-    · next h =>
-      right
-      exact ⟨_, _, _, _, rfl, by assumption, by
-        have := (by assumption : _ = Site.childSt ∧ _ ∧ _ ∧ _).2.2.1
-        rw [← this, h]⟩
-    · left; exact hn
-  · simp only [setPc_notes, allocNote_f] at hn
-    split at hn
-    · simp [NoteRec.blank] at hn
-    · left; exact hn
+  all_goals (first
+    | (simp only [childWakeNext_f_notified, setNotified_f_notified] at hn
+       split at hn
+       · next h =>
+         right; left
+         exact ⟨_, _, _, _, rfl, by assumption, by
+           have := (by assumption : _ = Site.childSt ∧ _ ∧ _ ∧ _).2.2.1
+           rw [← this, h]⟩
+       · left; exact hn)
+    | (simp only [setPc_notes, markBorn_notes, setNotified_f_notified] at hn
+       split at hn
+       · next h => subst h; right; right; exact ⟨_, _, _, rfl, by assumption⟩
+       · left; exact hn)
+    | (simp only [setPc_notes, allocNote_f] at hn
+       split at hn
+       · simp [NoteRec.blank] at hn
+       · left; exact hn))
 
 /-- A note enters a children list only by `nsync_note_new` (note.c:186) or by the adoption in
     `nsync_note_free` (note.c:217). -/
